@@ -91,11 +91,16 @@ InitSrv == [serving |-> FALSE, closed |-> FALSE, done |-> FALSE, reg |-> {},
             lisGated |-> FALSE]     \* the listener's Close blocks (application-controlled)
 
 CbNames == {"GetCapabilities", "OnOpenMessage", "OnEstablished", "Update", "OnClose"}
+(* points where the peer manager calls the application's Logger (a gate there holds the PM itself) *)
+PmGateNames == {"dis-out", "dis-in", "apv-out", "apv-in", "err-out", "err-in"}
+PmGateName(kind, d) == CASE kind = "dis" -> (IF d = "out" THEN "dis-out" ELSE "dis-in")
+                         [] kind = "apv" -> (IF d = "out" THEN "apv-out" ELSE "apv-in")
+                         [] kind = "err" -> (IF d = "out" THEN "err-out" ELSE "err-in")
 
 InitGh == [sess |-> [p \in Peers |-> "none"],    \* direction whose session callbacks are open
            nsess |-> [p \in Peers |-> 0],          \* OnEstablished count
            released |-> [p \in Peers |-> {}],      \* gates [n, k] the application has opened
-           ncb |-> [p \in Peers |-> [n \in CbNames |-> 0]],   \* invocations per callback
+           ncb |-> [p \in Peers |-> [n \in CbNames \cup PmGateNames |-> 0]],   \* invocations per callback / PM log point
            bad |-> {}]                             \* names of violated ghost checks
 
 Init ==
@@ -554,6 +559,14 @@ PHst(d, t)   == [op |-> "hst", d |-> d, t |-> t]
 PDamp        == [op |-> "damp"]
 PCloseConn(c) == [op |-> "closeConn", c |-> c]
 PDone        == [op |-> "done"]
+PGate(g)     == [op |-> "pgate", g |-> g]      \* the PM is inside the application's Logger
+PDisGo(d)    == [op |-> "disgo", d |-> d]
+
+(* does the PM stop at this log point?  (gate [n, k]: the k-th time it logs n) *)
+PmGateHere(p, name) ==
+  LET g == [n |-> name, k |-> gh.ncb[p][name] + 1] IN
+  IF (\E i \in 1..Len(cfg[p].gates) : cfg[p].gates[i] = g) /\ g \notin gh.released[p] THEN <<PGate(g)>> ELSE <<>>
+GhLog(p, name) == [gh EXCEPT !.ncb[p][name] = @ + 1]
 
 (* RFC 4271 6.8 / RFC 6286: is the local speaker dominant w.r.t. the
    identifier received on the connection of FSM (p, d)?                     *)
@@ -596,8 +609,9 @@ PmSelectError(p, d) ==
   /\ pm[p].pc = "sel" /\ f.pc = "err"
   /\ fsm' = [fsm EXCEPT ![p][d] = [f EXCEPT !.pc = "req", !.from = f.cur, !.to = f.des,
                                             !.errDamp = FALSE]]
-  /\ IF f.errDamp THEN PmSet(p, <<PDis("in"), PDis("out"), PDamp>>) ELSE UNCHANGED pm
-  /\ UNCHANGED <<cfg, srv, calls, conn, dial, now, out, gh>>
+  /\ PmSet(p, PmGateHere(p, PmGateName("err", d)) \o (IF f.errDamp THEN <<PDis("in"), PDis("out"), PDamp>> ELSE <<>>))
+  /\ gh' = GhLog(p, PmGateName("err", d))
+  /\ UNCHANGED <<cfg, srv, calls, conn, dial, now, out>>
 
 PmSelectTransition(p, d) ==
   LET f == fsm[p][d] IN
@@ -630,11 +644,20 @@ PmStep(p) ==
   IN
   /\ m.pc = "run" /\ m.todo # <<>>
   /\ CASE op.op = "dis" ->
+            \* disableFSM: nothing to do without an FSM; otherwise log the transition (the Logger may hold
+            \* the PM here), then close the FSM's closeCh and wait
             IF ~m.has[op.d]
-              THEN /\ PmSet(p, rest) /\ UNCHANGED <<fsm, conn, out>>
-              ELSE /\ PmSet(p, <<PDisW(op.d)>> \o rest)
-                   /\ fsm' = [fsm EXCEPT ![p][op.d].closed = TRUE]
-                   /\ UNCHANGED <<conn, out>>
+              THEN /\ PmSet(p, rest) /\ UNCHANGED <<fsm, conn, out, gh>>
+              ELSE /\ PmSet(p, PmGateHere(p, PmGateName("dis", op.d)) \o <<PDisGo(op.d)>> \o rest)
+                   /\ gh' = GhLog(p, PmGateName("dis", op.d))
+                   /\ UNCHANGED <<fsm, conn, out>>
+       [] op.op = "disgo" ->
+            /\ PmSet(p, <<PDisW(op.d)>> \o rest)
+            /\ fsm' = [fsm EXCEPT ![p][op.d].closed = TRUE]
+            /\ UNCHANGED <<conn, out, gh>>
+       [] op.op = "pgate" ->
+            /\ op.g \in gh.released[p]
+            /\ PmSet(p, rest) /\ UNCHANGED <<fsm, conn, out, gh>>
        [] op.op = "disw" ->
             \* disableFSM returns once the FSM goroutine has finished
             /\ fsm[p][op.d].pc = "dead"
@@ -648,13 +671,16 @@ PmStep(p) ==
                   \/ /\ ~lost \/ KnownD14
                      /\ pm' = [pm EXCEPT ![p] = [base EXCEPT !.todo = rest,
                                                   !.pc = IF rest = <<>> THEN "sel" ELSE "run"]]
-            /\ UNCHANGED <<conn, out>>
+            /\ UNCHANGED <<conn, out, gh>>
        [] op.op = "apv" ->
             \/ /\ m.closing                     \* sendTransitionToFSM gives up: peer is stopping
-               /\ PmSet(p, rest) /\ UNCHANGED <<fsm, conn, out>>
+               /\ PmSet(p, rest) /\ UNCHANGED <<fsm, conn, out, gh>>
             \/ /\ fsm[p][op.d].pc = "await"
-               /\ pm' = [pm EXCEPT ![p].todo = rest, ![p].pc = IF rest = <<>> THEN "sel" ELSE "run",
+               \* the transition is handed over, then logged (the Logger may hold the PM), then recorded
+               /\ LET todo2 == PmGateHere(p, PmGateName("apv", op.d)) \o rest IN
+                  pm' = [pm EXCEPT ![p].todo = todo2, ![p].pc = IF todo2 = <<>> THEN "sel" ELSE "run",
                                    ![p].st[op.d] = op.t.to]
+               /\ gh' = GhLog(p, PmGateName("apv", op.d))
                /\ fsm' = [fsm EXCEPT ![p][op.d].pc = "run", ![p][op.d].cur = op.t.to,
                                      ![p][op.d].todo = EnterProg(p, op.d, op.t.to)]
                /\ conn' = IF op.t.to \in Session /\ fsm[p][op.d].conn # ""
@@ -665,38 +691,38 @@ PmStep(p) ==
             /\ pm' = [pm EXCEPT ![p].todo = rest, ![p].pc = IF rest = <<>> THEN "sel" ELSE "run",
                                 ![p].has["out"] = @ \/ mk]
             /\ fsm' = IF mk THEN [fsm EXCEPT ![p]["out"] = NewFsm("")] ELSE fsm
-            /\ UNCHANGED <<conn, out>>
+            /\ UNCHANGED <<conn, out, gh>>
        [] op.op = "hst" ->
-            /\ PmSet(p, Decide(p, op.d, op.t) \o rest) /\ UNCHANGED <<fsm, conn, out>>
+            /\ PmSet(p, Decide(p, op.d, op.t) \o rest) /\ UNCHANGED <<fsm, conn, out, gh>>
        [] op.op = "col" ->
             \* the three-way select of the collision branch
             LET o == Other(op.d) IN
             \/ /\ m.closing
-               /\ PmSet(p, rest) /\ UNCHANGED <<fsm, conn, out>>
+               /\ PmSet(p, rest) /\ UNCHANGED <<fsm, conn, out, gh>>
             \/ /\ PmSet(p, <<PDis(o), PApv(op.d, op.t)>> \o rest)   \* kill the other connection
-               /\ UNCHANGED <<fsm, conn, out>>
+               /\ UNCHANGED <<fsm, conn, out, gh>>
             \/ /\ fsm[p][o].pc = "req"                                \* the other moved first
                /\ fsm' = [fsm EXCEPT ![p][o].pc = "await"]
                /\ LET ot == [from |-> fsm[p][o].from, to |-> fsm[p][o].to] IN
                   IF ot.to = "established"
                     THEN PmSet(p, <<PDis(op.d), PHst(o, ot)>> \o rest)
                     ELSE PmSet(p, <<PApv(op.d, op.t), PHst(o, ot)>> \o rest)
-               /\ UNCHANGED <<conn, out>>
+               /\ UNCHANGED <<conn, out, gh>>
        [] op.op = "damp" ->
             LET nd == UpdateDelay(m.sd, m.lastErr) IN
             /\ pm' = [pm EXCEPT ![p].todo = rest, ![p].pc = IF rest = <<>> THEN "sel" ELSE "run",
                                 ![p].sd = nd, ![p].lastErr = IF Timed THEN now ELSE Off,
                                 ![p].sdDl = Arm(nd), ![p].holdDown = TRUE]
-            /\ UNCHANGED <<fsm, conn, out>>
+            /\ UNCHANGED <<fsm, conn, out, gh>>
        [] op.op = "closeConn" ->
             /\ PmSet(p, rest)
             /\ out' = IF NeedsCloseEv(op.c) THEN Emit(out, Ev("lclose", "", op.c, "", 0, <<>>, "")) ELSE out
             /\ conn' = CloseConn(conn, op.c)
-            /\ UNCHANGED fsm
+            /\ UNCHANGED <<fsm, gh>>
        [] op.op = "done" ->
             /\ pm' = [pm EXCEPT ![p].pc = "done", ![p].todo = <<>>, ![p].sdDl = Off]
-            /\ UNCHANGED <<fsm, conn, out>>
-  /\ UNCHANGED <<cfg, srv, calls, dial, now, gh>>
+            /\ UNCHANGED <<fsm, conn, out, gh>>
+  /\ UNCHANGED <<cfg, srv, calls, dial, now>>
 
 PmNext(p) ==
   \/ PmSeesClose(p) \/ PmSdFires(p) \/ PmStep(p) \/ PmSelectInConn(p)
